@@ -792,3 +792,258 @@ resolve_property!(
     ],
     true
 );
+
+// ======================================================================= C08
+
+pub struct C08;
+
+const C08_SWEEP_UNIVERSES: u64 = 6;
+const C08_SWEEP_POSITIONS: u64 = 8;
+
+fn c08_sweep_len() -> u64 {
+    crate::netactors::FAULT_KINDS.len() as u64 * C08_SWEEP_POSITIONS * C08_SWEEP_UNIVERSES * 2
+}
+
+fn gen_c08(seed: u64, index: u64, tier: Tier) -> ResolvePlan {
+    let kinds = crate::netactors::FAULT_KINDS;
+    if index < c08_sweep_len() {
+        // deterministic sweep: each fault kind alone at each exchange position
+        let mut i = index;
+        let kind = kinds[usize::try_from(i % kinds.len() as u64).unwrap()];
+        i /= kinds.len() as u64;
+        let pos = i % C08_SWEEP_POSITIONS;
+        i /= C08_SWEEP_POSITIONS;
+        let uni = i % C08_SWEEP_UNIVERSES;
+        i /= C08_SWEEP_UNIVERSES;
+        let forwarding = i % 2 == 1;
+        let mut r = Rng::new(0xC08_0000 + uni);
+        let opts = GenOpts {
+            max_depth: 3,
+            max_zones: 7,
+            out_of_zone_ns: true,
+            ttl_choices: vec![300],
+            ..GenOpts::default()
+        };
+        let u = universe::generate(&mut r, &opts);
+        let mut knobs = Knobs::default();
+        if forwarding {
+            knobs.mode = "forwarding".into();
+        }
+        knobs.forced_faults = vec![crate::netactors::ForcedFault {
+            exchange: format!("q0.x{pos}"),
+            kind: kind.to_string(),
+        }];
+        // a deep question, so that the position exists
+        let deepest = u
+            .zones
+            .iter()
+            .max_by_key(|z| universe::labels(&z.apex))
+            .map_or(".".to_string(), |z| z.apex.clone());
+        let questions = vec![
+            QuestionPlan {
+                gap_ms: 0,
+                name: universe::child_name("www", &deepest),
+                qtype: "A".into(),
+                recursive: true,
+                prune_before: false,
+            },
+            QuestionPlan {
+                gap_ms: 1000,
+                name: universe::child_name("alias0", &deepest),
+                qtype: "TXT".into(),
+                recursive: true,
+                prune_before: false,
+            },
+        ];
+        return ResolvePlan {
+            knobs,
+            hints_auto: true,
+            local: Vec::new(),
+            universe: u,
+            cache_preload: Vec::new(),
+            questions,
+        };
+    }
+    let mut r = Rng::new(seed);
+    let mut knobs = random_benign_knobs(&mut r);
+    let opts = GenOpts {
+        max_depth: match tier {
+            Tier::Quick => r.range(1, 3),
+            Tier::Thorough => r.range(1, 4),
+        },
+        max_zones: r.range(3, 9) as usize,
+        family_profile: *r.pick(&[0u8, 0, 2, 3]),
+        multi_address_hosts: r.chance(0.2),
+        out_of_zone_ns: r.chance(0.7),
+        ttl_choices: r.pick(&[&[300u32][..], &[5, 300], &[1, 5, 3600]]).to_vec(),
+        ..GenOpts::default()
+    };
+    knobs.protocol_mode = (*r.pick(&["only-v4", "only-v4", "prefer-v4", "prefer-v6"])).to_string();
+    if r.chance(0.25) {
+        knobs.mode = "forwarding".into();
+    }
+    // swarm: a random subset of fault kinds, random rates
+    let n_kinds = r.range(1, kinds.len() as u64) as usize;
+    let mut all: Vec<&str> = kinds.to_vec();
+    r.shuffle(&mut all);
+    knobs.upstream_fault_kinds = all.into_iter().take(n_kinds).map(String::from).collect();
+    knobs.faults.insert("upstream.fault".into(), *r.pick(&[0.05, 0.2, 0.5, 1.0]));
+    knobs.faults.insert("udp.fate".into(), *r.pick(&[0.0, 0.05, 0.3]));
+    knobs.faults.insert("tcp.connect".into(), *r.pick(&[0.0, 0.1, 0.5]));
+    let max_extra = *r.pick(&[0u64, 49, 499, 6999, 69_999]);
+    knobs.params.insert("net.latency.max_extra_ms".into(), max_extra);
+    knobs.faults.insert("udp.delay".into(), *r.pick(&[0.0, 0.1, 0.7]));
+    knobs.faults.insert("tcp.delay".into(), *r.pick(&[0.0, 0.1, 0.7]));
+    let u = universe::generate(&mut r, &opts);
+    let nq = r.range(1, 4) as usize;
+    let qs = universe::interesting_questions(&u, &mut r, nq);
+    let questions = qs
+        .into_iter()
+        .map(|(name, qtype)| QuestionPlan {
+            gap_ms: *r.pick(&GAPS),
+            name,
+            qtype,
+            recursive: true,
+            prune_before: r.chance(0.2),
+        })
+        .collect();
+    ResolvePlan {
+        knobs,
+        hints_auto: true,
+        local: Vec::new(),
+        universe: u,
+        cache_preload: Vec::new(),
+        questions,
+    }
+}
+
+/// Everything that was supplied to the resolver: local data, plus every
+/// record of every message that reached it (as received).
+pub fn supplied_records(plan: &ResolvePlan, obs: &Observations) -> BTreeMap<(String, String), u32> {
+    let mut out: BTreeMap<(String, String), u32> = BTreeMap::new();
+    let mut add = |rr: &ResourceRecord| {
+        let e = out.entry(rr_key(rr)).or_insert(0);
+        *e = (*e).max(rr.ttl);
+    };
+    for z in resolve_engine::effective_local(plan) {
+        for r in &z.records {
+            add(&r.to_rr());
+        }
+        if let Some(soa) = &z.soa {
+            add(&universe::Rec::new(&z.apex, soa, u32::MAX).to_rr());
+        }
+    }
+    for r in &plan.cache_preload {
+        add(&r.to_rr());
+    }
+    let mut add_msg = |m: &Message| {
+        for rr in m.answers.iter().chain(m.authority.iter()).chain(m.additional.iter()) {
+            add(rr);
+        }
+    };
+    for (_, bytes) in &obs.recv_log {
+        // the code decodes its whole 512-byte buffer
+        let mut buf = vec![0u8; 512];
+        let n = bytes.len().min(512);
+        buf[..n].copy_from_slice(&bytes[..n]);
+        if let Ok(m) = Message::from_octets(&buf) {
+            add_msg(&m);
+        }
+    }
+    for e in &obs.exchanges {
+        if e.proto == "tcp" {
+            if let Some(m) = &e.reply {
+                add_msg(m);
+            }
+        }
+    }
+    out
+}
+
+fn oracle_c08(plan: &ResolvePlan, obs: &Observations) -> RunResult {
+    let mut res = base_result(obs);
+    let supplied = supplied_records(plan, obs);
+    for q in &obs.questions {
+        if q.elapsed_ms > 60_010 {
+            res.violations.push(Violation::new("c08.over_60s").detail(json!({
+                "q": qfacts(q), "exchanges": exchange_summary(obs, q)
+            })));
+        }
+        for life in &obs.lives[q.lives.clone()] {
+            match life.closed_ms {
+                None => res.violations.push(
+                    Violation::new("c08.transport_attempt_still_open")
+                        .fact("proto", life.proto)
+                        .detail(json!({"socket": life.label, "opened_ms": life.opened_ms, "q": qfacts(q)})),
+                ),
+                Some(c) => {
+                    let d = c - life.opened_ms;
+                    if d > 5_010 {
+                        res.violations.push(
+                            Violation::new("c08.transport_attempt_over_5s")
+                                .fact("proto", life.proto)
+                                .detail(json!({"socket": life.label, "duration_ms": d, "q": qfacts(q)})),
+                        );
+                    }
+                    if d >= 5_000 {
+                        bump(&mut res.stats, &format!("probe.timeout_5s_{}", life.proto));
+                    }
+                }
+            }
+        }
+        let returned: Vec<ResourceRecord> = match &q.result {
+            Ok(ResolvedRecord::NonAuthoritative { rrs, soa_rr }) => {
+                rrs.iter().cloned().chain(soa_rr.iter().cloned()).collect()
+            }
+            Ok(ResolvedRecord::Authoritative { rrs, soa_rr }) => {
+                rrs.iter().cloned().chain(std::iter::once(soa_rr.clone())).collect()
+            }
+            Ok(ResolvedRecord::AuthoritativeNameError { soa_rr }) => vec![soa_rr.clone()],
+            Err(e) => {
+                match e {
+                    ResolutionError::Timeout => bump(&mut res.stats, "probe.timeout_60s"),
+                    ResolutionError::RecursionLimit => bump(&mut res.stats, "probe.recursion_limit"),
+                    ResolutionError::DuplicateQuestion { .. } => bump(&mut res.stats, "probe.duplicate_question"),
+                    ResolutionError::DeadEnd { .. } => bump(&mut res.stats, "probe.dead_end"),
+                    _ => bump(&mut res.stats, "probe.other_error"),
+                }
+                Vec::new()
+            }
+        };
+        if q.result.is_ok() {
+            bump(&mut res.stats, "probe.answered_despite_faults");
+        }
+        for rr in &returned {
+            match supplied.get(&rr_key(rr)) {
+                Some(ttl) if rr.ttl <= *ttl => {}
+                Some(ttl) => res.violations.push(Violation::new("c08.ttl_above_supplied").detail(json!({
+                    "record": show_rr(rr), "supplied_ttl": ttl, "q": qfacts(q)
+                }))),
+                None => res.violations.push(Violation::new("c08.record_nobody_supplied").detail(json!({
+                    "record": show_rr(rr), "q": qfacts(q), "exchanges": exchange_summary(obs, q)
+                }))),
+            }
+        }
+    }
+    let faulted = obs.exchanges.iter().any(|e| e.fault != "none")
+        || obs.taken.iter().any(|d| d.site == "udp.fate" || d.site == "tcp.connect");
+    res.nontrivial = !obs.exchanges.is_empty() && faulted;
+    res.sample = Some(plan_sample(plan));
+    res
+}
+
+resolve_property!(
+    C08,
+    "C08",
+    "fault_enumeration",
+    gen_c08,
+    oracle_c08,
+    60_000,
+    1_000_000,
+    "first a deterministic sweep - each of 31 upstream fault kinds (silence, delays around 5 s and up to 70 s, garbage, truncation, wrong ID/QR/opcode/question, TC, error rcodes, empty, lame/unresolvable/self/fake-deeper referrals, alias loops and streams, TTL 0, oversize, TCP refuse/black hole/reset/early EOF/bad length) alone at each of 8 exchange positions of 6 universes in recursive and forwarding mode (2976 runs) - then random runs: random subsets of those kinds at random rates on every exchange incl. nested name-server lookups, plus datagram drop/duplicate/corrupt/truncate, connect refuse/black-hole, latencies up to 70 s. Oracle: resolve() completes, <= 60 s virtual, every UDP socket and TCP attempt lives <= 5 s, no panic, no stall, every returned record was supplied by local data or by a message that reached the resolver. Non-trivial = at least one exchange and at least one fault fired; distinct = distinct (exchange sequence, faults, result classes)",
+    [
+        "while faults flow only termination, time bounds, panic-freedom and provenance are judged - any answer or error is acceptable",
+        "a spin that makes no virtual-time progress is detected as a stall after 1,000,000 clock reads at one instant (deterministic), backed by a 30 s real-time watchdog",
+        "tokio's paused clock and timer wheel are trusted (10 ms tolerance on bounds)"
+    ]
+);
